@@ -145,7 +145,12 @@ func resolve(sel Selector, subject ipld.Node, at []string) (ipld.Node, error) {
 			switch {
 			case cur == nil:
 				err := newResolutionError(fmt.Sprintf("can not access field: %s on kind: %s", seg.Field(), kindString(cur)), at)
-				return nil, errIfNotOptional(seg, err)
+				if err := errIfNotOptional(seg, err); err != nil {
+					return nil, err
+				}
+				// optional segment without a match: "no value", the remaining segments still apply
+				cur = nil
+				continue
 
 			case cur.Kind() == datamodel.Kind_Map:
 				n, err := cur.LookupByString(seg.Field())
@@ -162,13 +167,23 @@ func resolve(sel Selector, subject ipld.Node, at []string) (ipld.Node, error) {
 
 			default:
 				err := newResolutionError(fmt.Sprintf("can not access field: %s on kind: %s", seg.Field(), kindString(cur)), at)
-				return nil, errIfNotOptional(seg, err)
+				if err := errIfNotOptional(seg, err); err != nil {
+					return nil, err
+				}
+				// optional segment without a match: "no value", the remaining segments still apply
+				cur = nil
+				continue
 			}
 
 		case len(seg.Slice()) > 0:
 			if cur == nil {
 				err := newResolutionError(fmt.Sprintf("can not slice on kind: %s", kindString(cur)), at)
-				return nil, errIfNotOptional(seg, err)
+				if err := errIfNotOptional(seg, err); err != nil {
+					return nil, err
+				}
+				// optional segment without a match: "no value", the remaining segments still apply
+				cur = nil
+				continue
 			}
 
 			slice := seg.Slice()
@@ -213,7 +228,12 @@ func resolve(sel Selector, subject ipld.Node, at []string) (ipld.Node, error) {
 
 			if cur == nil {
 				err := newResolutionError(fmt.Sprintf("can not access index: %d on kind: %s", seg.Index(), kindString(cur)), at)
-				return nil, errIfNotOptional(seg, err)
+				if err := errIfNotOptional(seg, err); err != nil {
+					return nil, err
+				}
+				// optional segment without a match: "no value", the remaining segments still apply
+				cur = nil
+				continue
 			}
 
 			idx := seg.Index()
@@ -224,7 +244,12 @@ func resolve(sel Selector, subject ipld.Node, at []string) (ipld.Node, error) {
 				}
 				if idx < 0 || idx >= int(cur.Length()) {
 					err := newResolutionError(fmt.Sprintf("index out of bounds: %d", seg.Index()), at)
-					return nil, errIfNotOptional(seg, err)
+					if err := errIfNotOptional(seg, err); err != nil {
+						return nil, err
+					}
+					// optional segment without a match: "no value", the remaining segments still apply
+					cur = nil
+					continue
 				}
 				cur, _ = cur.LookupByIndex(int64(idx))
 
@@ -235,13 +260,23 @@ func resolve(sel Selector, subject ipld.Node, at []string) (ipld.Node, error) {
 				}
 				if idx < 0 || idx >= len(b) {
 					err := newResolutionError(fmt.Sprintf("index %d out of bounds for bytes of length %d", seg.Index(), len(b)), at)
-					return nil, errIfNotOptional(seg, err)
+					if err := errIfNotOptional(seg, err); err != nil {
+						return nil, err
+					}
+					// optional segment without a match: "no value", the remaining segments still apply
+					cur = nil
+					continue
 				}
 				cur = basicnode.NewInt(int64(b[idx]))
 
 			default:
 				err := newResolutionError(fmt.Sprintf("can not access index: %d on kind: %s", seg.Index(), kindString(cur)), at)
-				return nil, errIfNotOptional(seg, err)
+				if err := errIfNotOptional(seg, err); err != nil {
+					return nil, err
+				}
+				// optional segment without a match: "no value", the remaining segments still apply
+				cur = nil
+				continue
 			}
 		}
 	}
